@@ -1,6 +1,6 @@
 (* C09: streaming is transparent -- results independent of I/O fragmentation and faults. *)
 From Coq Require Import List NArith Lia Bool.
-From Rpgp Require Import Base.Octets Base.Res Io.Fill Io.FillProofs Text.Canon Text.CanonProofs.
+From Rpgp Require Import Base.Octets Base.Res Io.Fill Io.FillProofs Armor.Base64 Armor.LineWriter Armor.LineWriterProofs.
 Import ListNotations.
 Open Scope N_scope.
 
@@ -31,3 +31,15 @@ Theorem C09_pump_same_for_all_schedules : forall b g fuel evs1 evs2, 1 <= b ->
   data_of evs1 = data_of evs2 -> pump fuel b g evs1 = pump fuel b g evs2.
 Proof. exact pump_same_for_all_schedules. Qed.
 Print Assumptions C09_pump_same_for_all_schedules.
+
+(* a concrete stateful writer: the line wrapper of the armor writer emits the same octets however
+   the data is cut into write() calls *)
+Theorem C09_line_writer_is_wrap : forall w, 1 <= w -> forall chunks,
+  lw_run w chunks = wrap w (concat chunks).
+Proof. exact lw_run_is_wrap. Qed.
+Print Assumptions C09_line_writer_is_wrap.
+
+Theorem C09_line_writer_chunking_independent : forall w, 1 <= w -> forall c1 c2,
+  concat c1 = concat c2 -> lw_run w c1 = lw_run w c2.
+Proof. exact lw_run_chunking_independent. Qed.
+Print Assumptions C09_line_writer_chunking_independent.
